@@ -131,8 +131,13 @@ impl Prop for C08 {
         let mut bcache: BTreeMap<usize, crash::Bounds> = BTreeMap::new();
         for (q, ev) in rec.trace.iter().enumerate() {
             if let Ev::Unlink { file, ok: true, .. } = ev {
-                unlinks += 1;
                 let name = rec.names[*file as usize].clone();
+                if refcodec::parse_chunk_file_name(&name).is_none() {
+                    // not a chunk file (e.g. a temporary name): nothing of the journal is deleted
+                    sh.apply(q, ev);
+                    continue;
+                }
+                unlinks += 1;
                 let off = refcodec::parse_chunk_file_name(&name).unwrap_or(0);
                 // (a) oldest first
                 let older: Vec<String> = sh.files.iter().enumerate().filter(|(i, f)| f.exists && refcodec::parse_chunk_file_name(&rec.names[*i]).map(|o| o < off).unwrap_or(false)).map(|(i, _)| rec.names[i].clone()).collect();
